@@ -52,6 +52,15 @@ pub fn abandon_constructions<D: Store>(d: &mut D) {
             }
         }
         let _ = l;
+        // a conversion to text (and to bytes) that fails half-way — a partial application inside a pair cannot be rendered — after
+        // part of the text was produced: whatever buffer it used is left as it was at the failure
+        let e = d.add_expression(0)?;
+        let one = d.add_number(SimpleNumber::Integer(1))?;
+        let part = d.add_partial(e, one)?;
+        let five = d.add_number(SimpleNumber::Integer(5))?;
+        let pr = d.add_pair((five, part))?;
+        let _ = d.add_char_list_from(pr);
+        let _ = d.add_byte_list_from(pr);
         Ok(())
     })();
 }
